@@ -315,7 +315,7 @@ def run(ctx):
     drv = C.drv_path() if drv_ok else None
     n = 60000 if ctx.tier == "quick" else 400000
     explore(ctx, h, drv, n, "main")
-    if ctx.proof_broken or ctx.corr_broken:
+    if (ctx.proof_broken or ctx.corr_broken) and not ctx.violations:
         ctx.log("obligation or correspondence broken: widening the search for a failing input")
         for i in range(3):
             if len(ctx.violations) >= 8:
